@@ -7,7 +7,7 @@ LEVEL = 'exploration'
 HONEST = ('honest', 'honest-chunked', 'honest-no-cal', 'honest-extra-noncritical', 'honest-chains-top-down')
 DEVIATIONS = ('prev-id', 'id-plus-2^32', 'other-hash', 'other-level', 'status-nonzero', 'status-nonzero-with-chains', 'error-pdu', 'truncated', 'garbled',
               'bad-mac', 'other-mac-alg', 'other-key-valid-mac', 'other-pdu-version', 'inconsistent-chains', 'no-chains', 'http-500', 'transport-error',
-              'no-mac', 'no-header', 'empty-body', 'two-pdus-first-foreign', 'config-only')
+              'no-mac', 'no-header', 'empty-body', 'two-pdus-first-foreign', 'config-only', 'level-wrap')
 
 
 class Server:
@@ -33,6 +33,8 @@ class Server:
         self.seen.append(req)
         L = req.get('level') or 0
         b = self.behaviour
+        if b == 'level-wrap' and L == 0:
+            self.behaviour = b = 'other-hash'      # (nothing to wrap without a requested level)
         c1 = rng.choice([0, 0, 1, 3])
         with_cal = b != 'honest-no-cal' and rng.random() < 0.8
         h = req.get('hash') or gen.rnd_imprint(rng, 1)
@@ -43,6 +45,8 @@ class Server:
         LL = L
         if b == 'other-level':
             LL = L + rng.choice([1, 2]) if L < 200 else L - 1
+        if b == 'level-wrap':
+            LL = 0      # chains calculated as for level 0; the first level correction is 2^64 - L (+ c1): a client that adds the requested level in 64 bits comes out at c1
         if LL + c1 > 250:
             c1 = 0
         if LL >= 253:
@@ -62,6 +66,8 @@ class Server:
             rs.chains[0].links[0].corr = None
             if LL == 0:
                 s.chains[0].links[0].corr = None      # same value, element absent: the SDK keeps the received encoding
+        if b == 'level-wrap':
+            rs.chains[0].links[0].corr = 2 ** 64 - L + c1
         if b == 'inconsistent-chains':
             ms = [m for n, m in gen.mutants(rs, rng)]
             rng.shuffle(ms)
